@@ -146,7 +146,7 @@ def main(argv):
     rep.assumptions = ["stand-in parser", "the engine's cache is cleared between sequences through the decorator's cache_clear()",
                        "each response is compared both with the specification's Solo(request) and with the response of a fresh engine without cache"]
     names = ["off", "k1", "k2", "inf"]
-    cfgs = ["MC_cache_%s.cfg" % n for n in names]
+    cfgs = ["MC_cache_%s.cfg" % n for n in names] + ["MC_hist_%s.cfg" % n for n in ("off", "k1", "inf")]
     if common.tier() == "thorough":
         cfgs += ["MC_cache_%s_big.cfg" % n for n in names]
     results = genrun.run_jobs("checks.c16", "job", [{"cfg": c} for c in cfgs])
